@@ -1,7 +1,12 @@
 #!/bin/sh
-# Offline setup: make sure hypothesis is importable in /venv (it is pre-installed on this image).
+# Offline setup: hypothesis must import in /venv (pre-installed on this image); mpmath (pure Python, used as a
+# high-precision reference by C12) goes into /verif/.deps, which the runner appends to sys.path.
 set -e
+cd "$(dirname "$0")/.."
 if ! /venv/bin/python -c "import hypothesis" 2>/dev/null; then
   /venv/bin/pip install --no-index --find-links /opt/veriftools/wheels hypothesis
 fi
-/venv/bin/python -c "import hypothesis, jax, scipy, numpy, netCDF4; print('setup ok: hypothesis', hypothesis.__version__)"
+if ! PYTHONPATH=.deps /venv/bin/python -c "import mpmath" 2>/dev/null; then
+  /venv/bin/pip install -q --no-index --find-links /opt/veriftools/wheels --target .deps mpmath
+fi
+PYTHONPATH=.deps /venv/bin/python -c "import hypothesis, jax, scipy, numpy, netCDF4, mpmath; print('setup ok: hypothesis', hypothesis.__version__, 'mpmath', mpmath.__version__)"
